@@ -365,6 +365,10 @@ def run(chk: Check, ctx: Any) -> None:
                        "decompiled and compiled back with both interpreted, the same operations and parameter values return")
     from .special_values import special_values_rule
     special_values_rule(chk, ctx, "C04-R8")
+    chk.rule("C04-R9", "the SsbScript spelling (fallback text): ops with two parameter values of a kind - strings of the value table, language strings, position marks, "
+                       "numbers, constants - through the interpreted SsbScript decompiler and compiler; the same values return")
+    from .special_values import ssbs_values_rule
+    ssbs_values_rule(chk, ctx, "C04-R9")
 
 
 # --------------------------------------------------------------------------- R7: print -> parse identity, printers and readers interpreted
@@ -374,6 +378,15 @@ STRING_VALUES = [
     " lead", "trail ", "  ", "", "C:\\dir", "tab\there", "é✓", "three ''' single", 'three """ double', "both ''' and \"\"\"", "both '''\nand \"\"\"\nlines",
     "x\n'''\ny", "a\n\n", "\n", "\n\n", "a\n   ", "100%", "{brace}", "semi; colon", "// not a comment", "/* nor this */", "a\n// line\nb",
 ]
+# the product of the two feature classes the string printer looks at: which triple-quote sequences occur x how the lines are laid out
+# (a seeded change broke only strings that have both a triple quote and lines the dedent rule would change)
+_QUOTE_FEATURES = ["", "'''", '"""', "''' " + '"""']
+_LAYOUTS = ["{q}x", "a{q}\nb", " a{q}\n b", "a{q}\n", "\n{q}a", "a\n\n{q}b", "  a{q}\n\n  b", " {q}\n", "a\n {q}"]
+for _q in _QUOTE_FEATURES:
+    for _l in _LAYOUTS:
+        _v = _l.replace("{q}", _q)
+        if _v not in STRING_VALUES:
+            STRING_VALUES.append(_v)
 MARK_NAMES = ["m", "it's", 'say "hi"', "a\nb", "with, comma", "a > b", ""]
 
 
